@@ -1,6 +1,7 @@
 (** Runner for the C09 correspondence.
     list                         -> labels of the catalogue entries (Class.name@variant)
     fp <label>                   -> element paths the setter may create or remove
+    keys <label>                 -> keys the getter reads # keys and subtrees (path/STAR) the setter may write
     seq <state> <ops>            -> one result per operation, then # and the final state
        state : entries separated by |   path@attr=cp.cp.cp   or   path   (element present)
                path = tags separated by / (empty for the anchor), text as code points
@@ -111,12 +112,32 @@ Definition footprint_paths (e : entry) : list path :=
   filter (fun p => negb (existsb (path_eqb p) (required_paths (e_set e))))
          (flat_map region_path (writes (e_set e))).
 
+(** every key the getter may read and every key / subtree the setter may write: the state variables of an
+    entry.  The check gives each of them every value the schema permits (foreign pre-states). *)
+Definition show_key (k : key) : str :=
+  match k with
+  | (p, None) => show_path p
+  | (p, Some a) => show_path p ++ [c_at] ++ a
+  end.
+Definition show_region (r : region) : str :=
+  match r with
+  | RKey k => show_key k
+  | RSub p => show_path p ++ [c_slash; 42%N]
+  end.
+Definition entry_keys (e : entry) : str :=
+  join_with [c_bar'] (map show_key (reads (e_get e))) ++ [c_hash] ++ join_with [c_bar'] (map show_region (writes (e_set e))).
+
 Definition run_c09 (args : list str) : str :=
   match args with
   | [op; lbl] =>
       if str_eqb op [102; 112]%N then                    (* fp *)
         match find_entry lbl with
         | Some e => join_with [c_bar'] (map show_path (footprint_paths e))
+        | None => w_badcase
+        end
+      else if str_eqb op [107; 101; 121; 115]%N then     (* keys *)
+        match find_entry lbl with
+        | Some e => entry_keys e
         | None => w_badcase
         end
       else w_badcase
